@@ -140,7 +140,7 @@ def valueJson : FieldValue → Json
   | .some => Json.str "some"
   | .none => Json.str "none"
 
-def jEvent (j : Json) : E Event := do
+def jEventFields (j : Json) : E Event := do
   let source ← jStr j "source"
   let id ← jInt (← j.getObjVal? "id")
   let fields ← match jOpt j "fields" with
@@ -154,7 +154,8 @@ def jEvent (j : Json) : E Event := do
   pure (Gene.Props.Refine.eventOfFields source id fields)
 
 /-- are the numbers of the event's fields within their Rust types? (the last hypothesis of `checked_refines_event`) -/
-def jEventWf (j : Json) : E Bool := do
+def jEventWf (j : Json) : E (Option Bool) := do
+  if (jOpt j "gval").isSome then return none
   let fields ← match jOpt j "fields" with
     | none => pure []
     | some a => do
@@ -163,7 +164,7 @@ def jEventWf (j : Json) : E Bool := do
         let segs ← jStrList (← f.getArrVal? 0)
         let v ← jValue (← f.getArrVal? 1)
         pure (segs, v))
-  pure (Gene.Props.Refine.fieldsWfB fields)
+  pure (some (Gene.Props.Refine.fieldsWfB fields))
 
 def jRType (s : String) : E RType :=
   match s with
@@ -485,6 +486,16 @@ partial def jGVal (j : Json) : E GVal := do
       pure (({ name := name, attrs := attrs } : FieldDef), v))
     pure (.struct us fs)
   | none => throw "bad getter value"
+
+/-- an event is a field table, or a value of a struct deriving `FieldGetter` (its getter is the model of the macro) -/
+def jEvent (j : Json) : E Event := do
+  match jOpt j "gval" with
+  | some g => do
+    let v ← jGVal g
+    let source ← jStr j "source"
+    let id ← jInt (← j.getObjVal? "id")
+    pure { source := source, id := id, get := fun segs => M.gget v segs }
+  | none => jEventFields j
 
 def optValueJson : Option FieldValue → Json
   | none => Json.null
@@ -912,7 +923,9 @@ def handle (j : Json) : E Json := do
       let rel : Json := match modelEngine x tdocs rules with
         | some eng =>
           let en := (sr.filter (fun p => !p.2)).map Prod.fst
-          Json.arr ((events.zip wfs).map (fun (ev, wf) => Json.bool (wf && Gene.Props.Refine.rulesRelB x ev en eng.rules))).toArray
+          Json.arr ((events.zip wfs).map (fun (ev, wf) => match wf with
+            | some w => Json.bool (w && Gene.Props.Refine.rulesRelB x ev en eng.rules)
+            | none => Json.null)).toArray  -- events served by a derived getter: not a field table, not decided
         | none => Json.null
       pure (Json.mkObj [("model", model), ("spec", spec), ("rel", rel)])
     else pure (Json.mkObj [("model", model)])
